@@ -218,6 +218,7 @@ def parseOp (m : Sim) (t : String) : Option Op :=
   | ["spin", _] => some (.env (fun m => { m with spin := true }) false)
   | ["cancel", c] => c.toNat?.map (fun c => .env (fun m => act m (.cancel c)) false)
   | ["close"] => some (.env (fun m => act m .close) false)
+  | ["cclose", n] => n.toNat?.map (fun n => .env (fun m => (List.range n).foldl (fun m _ => act m .close) m) false)
   | ["w", n] => n.toNat?.map (fun n => .wait (fun m => m.s.written.length ≥ n))
   | ["r", c] => c.toNat?.map (fun c => .wait (fun m => isDone m c))
   | ["rc"] => some (.wait (fun m => match m.s.conn with | .returned _ => true | _ => false))
